@@ -175,6 +175,14 @@ func (f *trFunc) expr(e ast.Expr) string {
 			if v.Pkg() != nil && v.Parent() == v.Pkg().Scope() {
 				return f.globalRef(v, x)
 			}
+			if f.tr.isOpaqueIface(v.Type()) {
+				f.problem(x, "`%s` has the interface type %s, which has no Lean counterpart (only calls listed as oracles may use it)", x.Name, f.tr.pr.typeStr(v.Type()))
+				return "unsupported"
+			}
+			if f.funcLocals[v] != nil {
+				f.problem(x, "function variable `%s` is used as a value", x.Name)
+				return "unsupported"
+			}
 			return f.nameOf(v)
 		}
 		f.problem(x, "identifier `%s`", x.Name)
@@ -275,6 +283,8 @@ func (f *trFunc) expr(e ast.Expr) string {
 		return "(← gslice " + xs + " " + lo + " " + hi + ")"
 	case *ast.CallExpr:
 		return f.call(x)
+	case *ast.TypeAssertExpr:
+		return "(← gassert " + f.typeAssert(x) + ")"
 	}
 	f.problem(e, "expression `%s` (%T)", f.src(e), e)
 	return "unsupported"
@@ -357,6 +367,19 @@ func (f *trFunc) arithOp(op token.Token, t types.Type, a, b string, at ast.Node)
 	a, b = paren(a), paren(b)
 	switch intKindOf(t) {
 	case sInt:
+		if f.spec != nil && f.spec.WrapArith && (op == token.ADD || op == token.SUB || op == token.MUL) {
+			w := ""
+			switch sizeOf(t) {
+			case 8:
+				w = "wrapI64"
+			case 4:
+				w = "wrapI32"
+			}
+			if w != "" {
+				sym := map[token.Token]string{token.ADD: "+", token.SUB: "-", token.MUL: "*"}[op]
+				return "(" + w + " (" + a + " " + sym + " " + b + "))"
+			}
+		}
 		switch op {
 		case token.ADD:
 			f.arith++
@@ -438,7 +461,9 @@ func (f *trFunc) cond(e ast.Expr) string {
 				switch lt.Underlying().(type) {
 				case *types.Basic:
 				default:
-					f.problem(x, "comparison of %s values", f.tr.pr.typeStr(lt))
+					if !isErrorType(lt) { // errors: comparison of the labels
+						f.problem(x, "comparison of %s values", f.tr.pr.typeStr(lt))
+					}
 				}
 			}
 			a, b := paren(f.expr(x.X)), paren(f.expr(x.Y))
@@ -475,6 +500,14 @@ func (f *trFunc) nilTest(e ast.Expr, isNil bool, at ast.Node) string {
 		f.problem(at, "nil test of a *uint256.Int")
 	case isErrorType(t), isStructPtr(t):
 		if isStructPtr(t) && !f.isOptExpr(e) {
+			if sel, ok := ast.Unparen(e).(*ast.SelectorExpr); ok && f.isPtrField(sel) {
+				// a pointer field that funcs.json does not list as optional: never nil by convention
+				f.neverNil++
+				if isNil {
+					return "False"
+				}
+				return "True"
+			}
 			f.problem(at, "nil test of `%s`, which is treated as never nil", f.src(e))
 		}
 		if isNil {
@@ -560,6 +593,14 @@ func (f *trFunc) composite(cl *ast.CompositeLit) string {
 			}
 		} else {
 			z, err := f.tr.zeroValue(fld.Type())
+			if w, isWrap := ts.Wrap[fld.Name()]; isWrap && !optF {
+				// a nil pointer held as one component: the zero component, provided the object only
+				// reaches code that never touches the field
+				if zw, ok := f.nilWrapZero(cl, fld, w); ok {
+					fs = append(fs, ln+" := "+zw)
+					continue
+				}
+			}
 			if optF {
 				z, err = "none", nil
 			} else if st := structOf(fld.Type()); st != nil && !isStructPtr(fld.Type()) {
@@ -694,6 +735,9 @@ func (f *trFunc) call(c *ast.CallExpr) string {
 			return "unsupported"
 		case fk == sInt && tk == sInt:
 			if sizeOf(to) < sizeOf(from) {
+				if sizeOf(to) == 4 {
+					return "(wrapI32 " + paren(s) + ")"
+				}
 				f.problem(c, "narrowing conversion %s -> %s", f.tr.pr.typeStr(from), f.tr.pr.typeStr(to))
 			}
 			return s
@@ -715,6 +759,9 @@ func (f *trFunc) call(c *ast.CallExpr) string {
 				t := f.typeOf(c.Args[0])
 				if isByteSlice(t) {
 					return "(hexLen " + f.arg(c.Args[0]) + ")"
+				}
+				if isStringType(t) {
+					return "(strLen " + f.arg(c.Args[0]) + ")"
 				}
 				if _, ok := t.Underlying().(*types.Slice); ok {
 					return "(" + f.arg(c.Args[0]) + ".length : Int)"
@@ -758,6 +805,19 @@ func (f *trFunc) call(c *ast.CallExpr) string {
 	// a call replaced by an explicit parameter (funcs.json "oracles")
 	if name := f.oracleFor(c); name != "" {
 		return name
+	}
+	if v, ok := f.oracleFnFor(c); ok {
+		return v
+	}
+	if vals, ok := f.specialCall(c); ok {
+		if len(vals) == 1 {
+			return vals[0]
+		}
+		return "(" + strings.Join(vals, ", ") + ")"
+	}
+	if fl := f.flOf(c); fl != nil {
+		f.problem(c, "call through the function variable `%s` inside an expression", fl.obj.Name())
+		return "unsupported"
 	}
 	// uint256
 	if isSel && isUint256(f.typeOf(sel.X)) && (uint256Setter[sel.Sel.Name] || uint256Pure[sel.Sel.Name]) {
@@ -823,8 +883,19 @@ func (f *trFunc) call(c *ast.CallExpr) string {
 			break
 		}
 		if i < len(g.params) {
-			if isSyncType(g.params[i].Type()) {
+			if isSyncType(g.params[i].Type()) || f.tr.isOpaqueIface(g.params[i].Type()) {
 				continue
+			}
+			if i == 0 && isSel {
+				if r, ok := f.promotedRecv(sel, c); ok {
+					for _, mp := range g.mutParams {
+						if mp == g.params[0] {
+							f.problem(c, "promoted method `%s` updates its receiver", f.src(sel))
+						}
+					}
+					as = append(as, r)
+					continue
+				}
 			}
 			as = append(as, paren(f.coerceT(a, g.opt[g.params[i]], g.params[i].Type())))
 		}
